@@ -811,6 +811,20 @@ def solb_mutants(rng, tier):
             kind, off, width = [f for f in w.fields if f[0] == 'count'][0]
             for val in (2 ** 32, 2 ** 32 + 3, 2 ** 31, 2 ** 40, 3 * 2 ** 32):
                 out.append(('solb', nn, put(data, off, width, val)))
+        if not metric and types:
+            # two cooperating fields: the keyword's own next-keyword link points past the end of the file (the header scan
+            # stops there without an error) AND the declared count is one whose product with ldim wraps or simply does not
+            # fit: whatever the reader measures the count against, it must be the bytes really present
+            sec = [x for x in w.sections if x[1] <= [f for f in w.fields if f[0] == 'count'][0][1] < x[2]]
+            cnt = [f for f in w.fields if f[0] == 'count'][0]
+            nxt = [f for f in w.fields if f[0] == 'next' and sec and sec[0][1] <= f[1] < sec[0][2]]
+            if nxt:
+                ldim = sum(1 if t == 1 else dim for t in types)
+                wrap = [(2 ** 32 * k + r) // ldim for k in (1, 2) for r in (ldim, 2 * ldim) if (2 ** 32 * k + r) % ldim == 0]
+                counts = [c for c in wrap + [2 ** 30 + 1, 2 ** 31 - 1, nn + 1, 3 * nn + 7] if 0 < c < 2 ** (8 * cnt[2] - 1)]
+                for link in ([2 ** 40, 2 ** 62] if nxt[0][2] == 8 else []) + [len(data) + 1000, 2 ** 31 - 1]:
+                    for c in rng.sample(counts, min(3, len(counts))):
+                        out.append(('solb', nn, put(put(data, nxt[0][1], nxt[0][2], link), cnt[1], cnt[2], c)))
     return out
 
 
